@@ -35,6 +35,7 @@ RULE += (" Also: clean-up failing with a RuntimeError whose cause is another Run
 RULE += (" Also: proper subclasses of RuntimeError raised from the block's exception.")
 RULE += (' Also: blocks that finish the manager\'s generator themselves (manager.gen.aclose()) before they leave, normally or by an exception.')
 RULE += (' Also: falsy Stop(Async)Iteration subclasses leaving the block.')
+RULE += (' Also: managers whose own single argument is a coroutine function (a hook).')
 ASSUMPTIONS = ["contextlib.asynccontextmanager of the running interpreter is the reference",
                "__cause__/__context__ chains and messages are not compared"]
 EXHAUSTIVE = {"quick": True, "thorough": True}
@@ -199,7 +200,12 @@ def cases(tier, seed, shard, nshards):
                 idx += 1
                 if idx % nshards == shard:
                     yield {"pre": pre, "handler": handler, "after": after, "outcome": outcome, "susp": susp, "mode": mode,
-                           "ambient": idx % 3 == 0 and outcome != "GeneratorExit"}
+                           "ambient": idx % 3 == 0 and outcome != "GeneratorExit",
+                           "hook_arg": idx % 4 == 1 and outcome != "GeneratorExit" and mode in ("with", "reuse", "block_closes_gen")}
+
+
+async def _hook(*args):
+    return "the hook ran"
 
 
 def make(pre, handler, after, log, susp):
@@ -378,7 +384,9 @@ def trial(factory, case):
             return await decorated_form()
         if case.get("mode") in ("decorate_then_enter", "enter_then_decorate"):
             return await mixed_form(case["mode"] == "decorate_then_enter")
-        manager = cm(1, k=2, **KW)
+        # (the manager's own arguments are whatever the generator function takes - also a single coroutine function,
+        # e.g. a notification hook: an argument like any other, not something to decorate)
+        manager = cm(_hook) if case.get("hook_arg") else cm(1, k=2, **KW)
         try:
             async with manager as v:
                 log.append(("entered", v))
